@@ -135,14 +135,18 @@ def more_frames(seed, base, F, d, tag):
     return [x.tolist() for x in fr]
 
 
-def varying_cells(H, F):
-    """frame f: edge lengths scaled per axis by dyadic factors, tilts scaled by (1, -1, 1/2, ...)"""
+TILT_SEQ = {"scale": [1.0, -1.0, 0.5], "orth_first": [0.0, 1.0, -1.0], "orth_later": [1.0, 0.0, -0.5]}
+
+
+def varying_cells(H, F, mode="scale"):
+    """frame f: edge lengths scaled per axis by dyadic factors, tilts scaled by (1, -1, 1/2, ...); modes orth_first / orth_later: the
+    first (a later) frame of a tilted trajectory is orthogonal - a shear run started from (passing through) the undeformed box"""
     H = np.array(H, float)
     d = len(H)
     out = []
     for f in range(F):
         sc = np.array([[1.0, 1.0, 1.0], [1.25, 0.875, 1.125], [0.875, 1.25, 1.0]][f % 3][:d])
-        tf = [1.0, -1.0, 0.5][f % 3]
+        tf = TILT_SEQ[mode][f % 3]
         Hf = np.diag(np.diag(H) * sc) + (H - np.diag(np.diag(H))) * tf
         out.append(Hf.tolist())
     return out
@@ -172,6 +176,10 @@ def gen_nnearest(tier, seed):
                                 # the cell changes from frame to frame (volume and tilt: NPT / sheared trajectories)
                                 yield {"kind": "nn", "slice": name, "d": d, "cell": cell, "H": H.tolist(), "H_frames": varying_cells(H, F),
                                        "ppp": mask, "frames": frames, "N": N}
+                                if cell != "orth":
+                                    for cm in ("orth_first", "orth_later"):
+                                        yield {"kind": "nn", "slice": name, "d": d, "cell": cell, "H": H.tolist(), "H_frames": varying_cells(H, F, cm),
+                                               "cellseq": cm, "ppp": mask, "frames": frames, "N": N}
         big = large_placement(seed, d)
         for cell, mask in LARGE_GEOMS[d]:
             for N in ((1, 6, 12, len(big) - 1) if tier == "quick" else range(1, len(big))):
@@ -207,6 +215,10 @@ def gen_cutoff(tier, seed):
                             if F > 1:
                                 yield {"kind": "cut", "slice": name, "d": d, "cell": cell, "H": H.tolist(), "H_frames": varying_cells(H, F),
                                        "ppp": mask, "frames": frames, "rc": rc}
+                                if cell != "orth":
+                                    for cm in ("orth_first", "orth_later"):
+                                        yield {"kind": "cut", "slice": name, "d": d, "cell": cell, "H": H.tolist(), "H_frames": varying_cells(H, F, cm),
+                                               "cellseq": cm, "ppp": mask, "frames": frames, "rc": rc}
         big = large_placement(seed, d)
         for cell, mask in LARGE_GEOMS[d]:
             H = cell_for(d, cell)
@@ -286,6 +298,10 @@ def gen_cutoff_type(tier, seed):
                            "frames": more_frames(seed, pts, 3, d, f"ty{d}"), "types": types, "R": Rm}
                     yield {"kind": "type", "slice": "jl", "d": d, "cell": cell, "H": H.tolist(), "H_frames": varying_cells(H, 3), "ppp": mask,
                            "frames": more_frames(seed, pts, 3, d, f"ty{d}"), "types": types, "R": Rm}
+                    if cell != "orth" and all(mask):
+                        for cm in ("orth_first", "orth_later"):
+                            yield {"kind": "type", "slice": "jl", "d": d, "cell": cell, "H": H.tolist(), "H_frames": varying_cells(H, 3, cm), "cellseq": cm,
+                                   "ppp": mask, "frames": more_frames(seed, pts, 3, d, f"ty{d}"), "types": types, "R": Rm}
                     if not is_open("C05.cutoff_type.types_vary"):
                         # the species attached to the ids change from frame to frame (same composition, rotated assignment)
                         yield {"kind": "type", "slice": "jl", "d": d, "cell": cell, "H": H.tolist(), "ppp": mask,
@@ -356,7 +372,7 @@ def run_calc(case):
     thrs = [thresholds(dict(case, types=t_), n) for t_ in tf]
     Hf = [np.array(h, float) for h in case["H_frames"]] if case.get("H_frames") else [H] * len(frames)
     if case.get("H_frames"):
-        sig["cell_varies"] = True
+        sig["cell_varies"] = case.get("cellseq", True)
     tables = [NB.dist_table(p, h, ppp) for p, h in zip(frames, Hf)]
     # ---- margins: screen BEFORE the implementation runs
     if sl != "dyadic":
